@@ -5,6 +5,7 @@ store (kind, content, fault schedule), random draws and request.  Model: Model/A
 (tied to the code by the exhaustive correspondence stream over the finite product of the statement).
 -/
 import PasskeyVerif.Lemmas.AuthFlags
+import PasskeyVerif.Model.Client
 namespace PasskeyVerif.C04
 open PasskeyVerif.Auth PasskeyVerif.Auth.Spec PasskeyVerif.Generated
 open PasskeyVerif.AuthData (Bytes AuthData)
@@ -292,5 +293,92 @@ theorem C04_get_no_disclosure (cfg : Cfg) (u : UvCfg) (s1 s2 : Store) (req : Get
       simp only [Except.error.injEq] at hind
       rw [he1, he2, hind]
       rfl
+
+/-! ### seen from the WebAuthn caller: `userVerification` is the request for verification -/
+
+/-- `Client::authenticate` always requires presence and asks for verification exactly when
+`userVerification` is not `discouraged`; so with verification asked for (required or preferred) on an
+authenticator whose verification is absent or unconfigured the ceremony is an error and the store is
+untouched — the client cannot turn the request into an unverified assertion. -/
+theorem C04_client_authenticate_unsupported (v : RpId.Verifier) (cfg : Cfg) (u : UvCfg) (s : Store)
+    (origin : RpId.Origin) (originStr : String) (req : Client.AuthReq) (mode : Client.ClientDataMode)
+    (hreq : req.userVerification ≠ .discouraged) (hcap : u.verification ≠ some true) :
+    (∃ e, (Client.authenticate v cfg u s origin originStr req mode).result = .error e)
+      ∧ storeObs (Client.authenticate v cfg u s origin originStr req mode).store = storeObs s := by
+  have htick : storeObs (getInfo cfg u s).2 = storeObs s := rfl
+  unfold Client.authenticate
+  simp only
+  split
+  · exact ⟨⟨_, rfl⟩, htick⟩
+  · split
+    · exact ⟨⟨_, rfl⟩, htick⟩
+    · rename_i rp _ _ ctapExt _
+      have huv : (req.userVerification != Client.UvReq.discouraged) = true := by
+        cases h : req.userVerification <;> simp_all
+      have hcap' : (u.verification != some true) = true := by
+        cases h : u.verification with
+        | none => rfl
+        | some b => cases b <;> simp_all
+      have key := C04_get_errors cfg u (getInfo cfg u s).2
+        { rpId := rp.map UInt8.ofNat,
+          cdh := Client.clientDataHash (Client.clientDataJson "webauthn.get" req.challenge originStr mode) mode,
+          allowList := req.allow, ext := ctapExt, rk := false, up := true,
+          uv := req.userVerification != Client.UvReq.discouraged, pinAuth := false } []
+      simp only [c04_errors, OpReq.uvReq, envOf, huv, hcap', Bool.and_self, Bool.false_or, if_true,
+        Bool.false_eq_true, if_false, Bool.and_eq_true, snapsEq, obsOfGet, beq_iff_eq] at key
+      obtain ⟨hres, hstore⟩ := key
+      simp only [huv]
+      generalize getAssertion cfg u (getInfo cfg u s).2
+        { rpId := rp.map UInt8.ofNat,
+          cdh := Client.clientDataHash (Client.clientDataJson "webauthn.get" req.challenge originStr mode) mode,
+          allowList := req.allow, ext := ctapExt, rk := false, up := true, uv := true, pinAuth := false } = out at hres hstore ⊢
+      cases hr : out.result with
+      | error e => exact ⟨⟨_, rfl⟩, by rw [hstore]; exact htick⟩
+      | ok r =>
+        rw [hr] at hres
+        cases ht : r.authData.toVec <;> simp [ht] at hres
+
+/-- the same for `Client::register` (which also always requires presence): verification asked for on an
+authenticator without it is an error, nothing is saved -/
+theorem C04_client_register_unsupported (v : RpId.Verifier) (cfg : Cfg) (u : UvCfg) (s : Store) (dr : Draws)
+    (origin : RpId.Origin) (originStr : String) (req : Client.RegisterReq) (mode : Client.ClientDataMode)
+    (hreq : req.selection.map (·.userVerification) ≠ some .discouraged) (hcap : u.verification ≠ some true) :
+    (∃ e, (Client.register v cfg u s dr origin originStr req mode).result = .error e)
+      ∧ storeObs (Client.register v cfg u s dr origin originStr req mode).store = storeObs s := by
+  have htick : storeObs (getInfo cfg u s).2 = storeObs s := rfl
+  unfold Client.register
+  simp only
+  split
+  · exact ⟨⟨_, rfl⟩, htick⟩
+  · split
+    · exact ⟨⟨_, rfl⟩, htick⟩
+    · rename_i rp _ _ ctapExt _
+      have huv : ((req.selection.map (·.userVerification)) != some Client.UvReq.discouraged) = true := by
+        simpa using hreq
+      have hcap' : (u.verification != some true) = true := by
+        cases h : u.verification with
+        | none => rfl
+        | some b => cases b <;> simp_all
+      have key := C04_make_errors cfg u (getInfo cfg u s).2 dr
+        { cdh := Client.clientDataHash (Client.clientDataJson "webauthn.create" req.challenge originStr mode) mode,
+          rpId := rp.map UInt8.ofNat, userId := req.userId, algs := if req.algs.isEmpty then [-7, -257] else req.algs,
+          excludeList := req.exclude, ext := ctapExt,
+          rk := Client.mapRk req.selection (getInfo cfg u s).1.2.1, up := true,
+          uv := (req.selection.map (·.userVerification)) != some Client.UvReq.discouraged, pinAuth := false }
+      simp only [c04_errors, OpReq.uvReq, envOf, huv, hcap', Bool.and_self, if_true,
+        Bool.not_true, Bool.false_eq_true, if_false, Bool.and_eq_true, snapsEq, obsOfMake, beq_iff_eq] at key
+      obtain ⟨hres, hstore⟩ := key
+      simp only [huv]
+      generalize makeCredential cfg u (getInfo cfg u s).2 dr
+        { cdh := Client.clientDataHash (Client.clientDataJson "webauthn.create" req.challenge originStr mode) mode,
+          rpId := rp.map UInt8.ofNat, userId := req.userId, algs := if req.algs.isEmpty then [-7, -257] else req.algs,
+          excludeList := req.exclude, ext := ctapExt,
+          rk := Client.mapRk req.selection (getInfo cfg u s).1.2.1, up := true,
+          uv := true, pinAuth := false } = out at hres hstore ⊢
+      cases hr : out.result with
+      | error e => exact ⟨⟨_, rfl⟩, by rw [hstore]; exact htick⟩
+      | ok r =>
+        rw [hr] at hres
+        cases ht : r.authData.toVec <;> simp [ht] at hres
 
 end PasskeyVerif.C04
